@@ -617,13 +617,30 @@ def local_order(body):
     return out
 
 
-def features(h, script_globals=()):
+def features(h, script_globals=(), handler_names=()):
     """root-cause features of one handler tree (used by the narrow matchers of the open findings)"""
     f = set()
     body = h[3:] if (isinstance(h, list) and h and h[0] in ("on", "method")) else h
     refs, normal = named_refs(body)
     if any(g not in script_globals and g not in normal for g in refs):
         f.add("F120")
+    # symbols spelled like Director's keyword-symbols print without '#': fine as the argument of go / first argument of sound,
+    # a variable reference everywhere else
+    def syms(t, ok):
+        if isinstance(t, list) and t:
+            if t[0] == "y" and len(t) == 2 and t[1] in ("loop", "next", "previous", "playFile", "fadeIn", "fadeOut", "stop", "close"):
+                if not ok:
+                    f.add("F124")
+                return
+            if t[0] == "call" and len(t) >= 3 and t[1] in ("go", "sound"):
+                syms(t[2], t[1] == "sound" or (len(t) == 3 and isinstance(t[2], list) and t[2][0] == "y" and t[2][1] in ("loop", "next", "previous")))
+                for x in t[3:]:
+                    syms(x, False)
+                return
+            for x in t:
+                syms(x, False)
+    for st in body:
+        syms(st, False)
     locs = local_order(body)
     for t in walk(body):
         if len(t) >= 2 and t[0] in ("put", "del"):
@@ -652,15 +669,229 @@ def features(h, script_globals=()):
         if tag == "tell":
             if any(isinstance(x, list) and x and x[0] == "tell" for b in t[2:] for x in walk(b)):
                 f.add("F22")
-        if tag == "y" and t[1] in ("loop", "next", "previous", "playFile", "fadeIn", "fadeOut", "stop", "close"):
-            f.add("sym-known")
-        if tag == "c" and len(t) == 2:
-            f.add("call0")
+        if tag == "mov" and t[1] == "ancestor":
+            f.add("F124")
+        if tag == "c" and len(t) == 2 and t[1] not in handler_names:
+            f.add("F125")
         if tag == "op" and (t[2] == "me" or (isinstance(t[2], list) and t[2][:1] in (["p"], ["l"], ["g"]) and t[2][1] == "me")):
             f.add("F122")
         if tag == "op" and isinstance(t[2], list) and t[2][0] == "i" and t[2][1] >= 32768:
             f.add("F121")
     return sorted(f)
+
+# ------------------------------------------------------------------------------------------------ C03: control-flow skeletons
+# skeleton item: "s" (simple statement) | "x" (exit repeat) | (kind, body) | ("ifelse", then_body, else_body)
+LOOPS = ("while", "up", "down", "in")
+COMPOUNDS = ("if", "ifelse") + LOOPS
+
+
+def skeleton_bodies(k, maxlen, in_loop, memo):
+    """all bodies (tuples of items) with EXACTLY k compound constructs and 1..maxlen items"""
+    key = (k, maxlen, in_loop)
+    if key in memo:
+        return memo[key]
+    out = []
+    def items(kk):
+        """single items using exactly kk compounds"""
+        if kk == 0:
+            return ["s"] + (["x"] if in_loop else [])
+        res = []
+        inner = kk - 1
+        for kind in COMPOUNDS:
+            il = in_loop or kind in LOOPS
+            if kind == "ifelse":
+                for a in range(inner + 1):
+                    for t in skeleton_bodies(a, maxlen, il, memo):
+                        for e in skeleton_bodies(inner - a, maxlen, il, memo):
+                            res.append(("ifelse", t, e))
+            else:
+                for b in skeleton_bodies(inner, maxlen, il, memo):
+                    res.append((kind, b))
+        return res
+    def seqs(n, kk):
+        """sequences of n items using exactly kk compounds"""
+        if n == 0:
+            return [()] if kk == 0 else []
+        res = []
+        for a in range(kk + 1):
+            for it in items(a):
+                for rest in seqs(n - 1, kk - a):
+                    res.append((it,) + rest)
+        return res
+    for n in range(1, maxlen + 1):
+        out += seqs(n, k)
+    # a body never consists of exit repeat followed by anything (dead code is not what a compiler emits for structured source;
+    # it is still legal Lingo, so keep it) -- no pruning
+    memo[key] = out
+    return out
+
+
+def skeletons(kmax, maxlen=2):
+    memo = {}
+    for k in range(0, kmax + 1):
+        for b in skeleton_bodies(k, maxlen, False, memo):
+            yield b
+
+
+class SkelBuilder:
+    """skeleton -> statement trees with unique markers (so that 'every statement once, in order, same construct' is tree equality)"""
+    def __init__(self):
+        self.n = 0
+        self.loops = 0
+
+    def num(self):
+        self.n += 1
+        return self.n
+
+    def body(self, items):
+        return [self.item(it) for it in items]
+
+    def item(self, it):
+        if it == "s":
+            return ["call", "put", ["i", self.num()]]
+        if it == "x":
+            return "exitrep"
+        kind = it[0]
+        if kind == "if":
+            c = ["b", "lt", ["l", "c"], ["i", self.num()]]
+            return ["if", c, self.body(it[1]), []]
+        if kind == "ifelse":
+            c = ["b", "gt", ["l", "c"], ["i", self.num()]]
+            return ["if", c, self.body(it[1]), self.body(it[2])]
+        self.loops += 1
+        v = ["l", "i%d" % self.loops]
+        if kind == "while":
+            c = ["b", "ne", ["l", "c"], ["i", self.num()]]
+            return ["while", c] + self.body(it[1])
+        if kind == "up":
+            return ["with", v, ["i", 1], ["i", self.num() + 10], "up"] + self.body(it[1])
+        if kind == "down":
+            return ["with", v, ["i", self.num() + 10], ["i", 1], "down"] + self.body(it[1])
+        if kind == "in":
+            return ["in", v, ["li", ["i", self.num()], ["i", 2]]] + self.body(it[1])
+        raise ValueError(kind)
+
+
+def skel_handler(items, name="h"):
+    b = SkelBuilder()
+    return ["on", name, []] + b.body(items)
+
+
+def skel_str(items):
+    """compact text of a skeleton, e.g. up[s if[x] s]"""
+    out = []
+    for it in items:
+        if isinstance(it, str):
+            out.append(it)
+        elif it[0] == "ifelse":
+            out.append("ifelse[%s|%s]" % (skel_str(it[1]), skel_str(it[2])))
+        else:
+            out.append("%s[%s]" % (it[0], skel_str(it[1])))
+    return " ".join(out)
+
+
+def skel_has_exit(items):
+    return any(it == "x" or (not isinstance(it, str) and any(skel_has_exit(b) for b in it[1:])) for it in items)
+
+
+# ---- structural classes of exit-repeat configurations the reconstruction heuristic gets wrong (one open finding each).
+# Works on statement trees.  Exact on the exhaustive enumerations (harness/c03.py checks predicted == observed every run).
+
+class _X:
+    pass
+
+
+def _c03_box(stmts):
+    out = []
+    for st in stmts:
+        if st == "exitrep":
+            out.append(_X())
+        elif isinstance(st, list) and st and st[0] == "if":
+            out.append(("ifelse", _c03_box(st[2]), _c03_box(st[3])) if st[3] else ("if", _c03_box(st[2])))
+        elif isinstance(st, list) and st and st[0] == "while":
+            out.append(("loop", _c03_box(st[2:])))
+        elif isinstance(st, list) and st and st[0] == "with":
+            out.append(("loop", _c03_box(st[5:]), "with"))
+        elif isinstance(st, list) and st and st[0] == "in":
+            out.append(("loop", _c03_box(st[3:])))
+        elif isinstance(st, list) and st and st[0] == "tell":
+            out += _c03_box(st[2:])
+        else:
+            out.append("s")
+    return out
+
+
+def _c03_flat(items):
+    o = []
+    for it in items:
+        if it == "s" or isinstance(it, _X):
+            o.append(it)
+        elif it[0] == "if":
+            o.append("jz"); o += _c03_flat(it[1])
+        elif it[0] == "ifelse":
+            o.append("jz"); o += _c03_flat(it[1]); o.append("ej"); o += _c03_flat(it[2])
+        else:
+            if len(it) > 2:
+                o.append("s")        # `repeat with v = a to b` starts with the separate statement `set v = a`
+            o.append("loop")
+    return o
+
+
+def _c03_last_is_exit(it):
+    if isinstance(it, _X):
+        return True
+    if it == "s":
+        return False
+    if it[0] == "if":
+        return bool(it[1]) and _c03_last_is_exit(it[1][-1])
+    if it[0] == "ifelse":
+        return bool(it[2]) and _c03_last_is_exit(it[2][-1])
+    return False
+
+
+def c03_classes(stmts):
+    """F23: exit repeat is a direct item of a loop body.
+       F24: an if / if-else follows, in the same statement list, an `if` without else whose code ends with an exit-repeat jump.
+       F25: exit repeat in an else branch, not rescued (= not the second-to-last instruction-level statement of an enclosing branch).
+       F126: exit repeat in a then branch, not rescued (not last item of an if without else, not second-to-last statement of an
+             enclosing branch counting the else jump)."""
+    out = set()
+
+    def walk(items, ctx, fixed):
+        n = len(items)
+        for i, it in enumerate(items):
+            if isinstance(it, _X):
+                if ctx == "loop":
+                    out.add("F23")
+                elif it in fixed or (ctx == "then" and i == n - 1):
+                    pass
+                elif ctx == "else":
+                    out.add("F25")
+                elif ctx in ("then", "thenE"):
+                    out.add("F126")
+            elif it != "s":
+                k = it[0]
+                if k in ("if", "ifelse"):
+                    if any((not isinstance(e, _X)) and e != "s" and e[0] == "if" and _c03_last_is_exit(e) for e in items[:i]):
+                        out.add("F24")
+                if k == "if":
+                    f = _c03_flat(it[1]); fx = set(fixed)
+                    if len(f) >= 2 and isinstance(f[-2], _X):
+                        fx.add(f[-2])
+                    walk(it[1], "then", fx)
+                elif k == "ifelse":
+                    f = _c03_flat(it[1]) + ["ej"]; fx = set(fixed)
+                    if len(f) >= 2 and isinstance(f[-2], _X):
+                        fx.add(f[-2])
+                    walk(it[1], "thenE", fx)
+                    f = _c03_flat(it[2]); fx2 = set(fixed)
+                    if len(f) >= 2 and isinstance(f[-2], _X):
+                        fx2.add(f[-2])
+                    walk(it[2], "else", fx2)
+                else:
+                    walk(it[1], "loop", set())
+    walk(_c03_box(stmts), "top", set())
+    return sorted(out)
 
 if __name__ == "__main__":
     import logging; logging.disable(logging.CRITICAL)
